@@ -9,13 +9,13 @@ from .. import cli, clicases as cc
 N_QUICK = 150
 N_THOROUGH = 4000
 RULE = ("corruption stream over generated valid JSON and Gambit files, read under every --input-format and both routes: "
-        "JSON: dropped/renamed fields, wrong types, truncated text, trailing garbage, zero/negative probabilities, empty "
+        "JSON: dropped/renamed fields, wrong types, truncated text, trailing garbage, zero/negative probabilities (one weight, or every weight of a node), empty "
         "outcome/action maps, non-finite payoffs (1e999), library-contract violations (different action sets in one infoset, "
         "imperfect recall, unequal shared chance weights); Gambit: truncated text, bad header, probabilities not summing to one, "
         "one or three players, pair sums perturbed to just outside (rejected) and just inside (accepted) the 0.1% constant-sum "
         "tolerance computed in exact rationals, huge payoffs, an unnamed infoset whose number is another infoset's name, two "
         "infosets of one player with one name, the same name used by both players (must be accepted), contract violations; "
-        "wrong-format reads (a JSON file under --input-format gambit and vice versa), unparsable text under auto.  Required on "
+        "wrong-format reads (a JSON file, valid or corrupted, under --input-format gambit and vice versa, also under its own extension), unparsable text under auto.  Required on "
         "rejection: non-zero exit status, the documented diagnostic anchor on stderr, empty stdout and no -o file; on the "
         "accepted controls: exit 0 and a result object.  non-trivial = a rejected input; distinct by (text, options)")
 ASSUMPTIONS = ["PARTIAL: rejection of malformed *text* is done by serde_json / gambit-parser (dependencies); for it this check is a "
@@ -30,13 +30,16 @@ ANCHOR = {
 
 
 JSON_KINDS = ["truncate", "garbage", "drop", "rename", "type", "prob", "empty", "payoff", "actions", "recall", "chance",
-              "singles", "single-multi", "forgot", "chance-fine"]
+              "singles", "single-multi", "forgot", "chance-fine", "prob-all-negative"]
 
 
 def corrupt_json(rng, fc, kind=None):
     """returns (text, category) for a corrupted JSON game"""
     obj = json.loads(fc.text)
     kind = kind or rng.choice(JSON_KINDS)
+    kind_all_negative = kind == "prob-all-negative"
+    if kind_all_negative:
+        kind = "prob"
 
     def nodes(o, acc):
         acc.append(o)
@@ -90,7 +93,17 @@ def corrupt_json(rng, fc, kind=None):
     if kind == "prob":
         if not ch:
             return None
-        v = rng.choice(list(rng.choice(ch)["chance"]["outcomes"].values()))
+        node = rng.choice(ch)
+        if kind_all_negative:
+            # every weight of the node negative: the normalised values would be positive again
+            multi = [n for n in ch if len(n["chance"]["outcomes"]) >= 2]
+            if not multi:
+                return None
+            node = rng.choice(multi)
+            for v in node["chance"]["outcomes"].values():
+                v["prob"] = -abs(v["prob"])
+            return json.dumps(obj), "game"
+        v = rng.choice(list(node["chance"]["outcomes"].values()))
         v["prob"] = rng.choice([0.0, -0.5, -0.0])
         return json.dumps(obj), "game"
     if kind == "empty":
@@ -360,8 +373,6 @@ def run(out, rng, tier, args):
         done += 1
         # how the file is read
         how = rng.choice(["explicit", "auto-ext", "auto-stdin", "wrong-format"])
-        if how == "wrong-format" and cat is None:
-            how = "explicit"
         a = ["-m", rng.choice(["full", "external", "sampled"]), "-t", "5"]
         kw = {}
         expect = cat
@@ -377,8 +388,9 @@ def run(out, rng, tier, args):
         else:
             other = "gambit" if fmt == "json" else "json"
             a += ["--input-format", other]
-            kw = dict(path_text=text, ext=".dat")
-            expect = other               # a syntactically foreign file
+            # also under the content's own extension: the explicit flag decides, not the file name
+            kw = dict(path_text=text, ext=rng.choice([".dat", {"json": ".json", "gambit": ".efg"}[fmt]]))
+            expect = other               # a syntactically foreign file (valid or not in its own format)
         to_file = rng.random() < 0.3
         res = cli.run_cli(a, out_file=to_file, name="c17_%d" % cid, **kw)
         out.evaluations += 1
